@@ -131,16 +131,17 @@ fn small_fv(t: &ATerm) -> bool {
 }
 
 pub fn gen_history(rng: &mut Rng) -> (Vec<Op>, &'static str) {
-    let stream = match rng.below(12) {
+    let stream = match rng.below(13) {
         0..=3 => "mixed",
         4 => "symmetry",
         5 => "redundancy",
         6 => "selfref",
         7 | 8 => "binders",
         9 => "inherit",
-        _ => "symred",
+        10 => "symred",
+        _ => "deepsym",
     };
-    if stream == "inherit" || stream == "symred" {
+    if stream == "inherit" || stream == "symred" || stream == "deepsym" {
         return (gen_structured(rng, stream), stream);
     }
     let nfree = rng.range(2, 4);
@@ -367,6 +368,41 @@ fn gen_structured(rng: &mut Rng, stream: &str) -> Vec<Op> {
             terms.len() - 1
         }
     };
+    if stream == "deepsym" {
+        // a symmetry created at the bottom has to travel two or three levels up:
+        // A = leaf, C = h(A), G = k(C·σ1, C·σ2), GG = h(G) / k(G, C)
+        let a = |sl: &[u32]| q(sl);
+        let cterm = |sl: &[u32]| un(13, a(sl));
+        let s1 = random_perm(rng, n);
+        let s2 = random_perm(rng, n);
+        let g = bin(14, cterm(&perm_slots(&s1)), cterm(&perm_slots(&s2)));
+        let ia = push(&mut terms, a(&slots));
+        push(&mut terms, cterm(&slots));
+        push(&mut terms, g.clone());
+        if rng.chance(1, 2) {
+            push(&mut terms, un(13, g.clone()));
+        } else {
+            push(&mut terms, bin(14, g.clone(), cterm(&slots)));
+        }
+        let s3 = random_perm(rng, n);
+        push(&mut terms, bin(14, cterm(&perm_slots(&s3)), cterm(&slots)));
+        for _ in 0..rng.range(1, 2) {
+            let gperm = random_perm(rng, n);
+            if gperm != id {
+                let j = push(&mut terms, a(&perm_slots(&gperm)));
+                unions.push((ia, j));
+            }
+        }
+        let mut ops: Vec<Op> = terms.into_iter().map(Op::Add).collect();
+        ops.push(Op::Query);
+        for (i, j) in unions {
+            if i != j {
+                ops.push(Op::Union(i, j));
+                ops.push(Op::Query);
+            }
+        }
+        return ops;
+    }
     let iq = push(&mut terms, q(&slots));
     let ngen = rng.range(1, 2);
     let mut sym_unions = Vec::new();
